@@ -11,12 +11,21 @@ RULE = ('fixtures: 1-5 model parameters (decorated + add_fittable_param, optiona
         'off, bounds in either order incl. non-positive ones on log parameters; sequences of 3-12 (quick) / 3-60 (thorough) '
         'operations drawn from the 10 operations with unknown names, bad modes, wrong-length vectors, user priors of all four '
         'classes in both spaces, write-back of reported values. distinct non-trivial = distinct operation-kind sequences '
-        'that change a setting after a first compile and compile again')
+        'that change a setting after a first compile and compile again. sections: [Fitting]/[Derive] text over the same fixtures '
+        '(1-4 mentioned parameters, random subsets of fit/bounds/mode/factor/prior lines in random order, yes/no words, prior '
+        'strings from the C08 grammar, unknown names, misspelt options, keys without / with two colons, bad priors, shapes outside '
+        'the documented ones), parsed by the real ParameterParser and applied by the real setup_optimizer; distinct = (option set, '
+        'outcome)')
 ASSUMPTIONS = ['math.log10 raises ValueError exactly for x <= 0; 10**x on Python floats is libm pow (compared to 1e-12)',
                'names are unique across the model and observation tables (hypothesis of compile_history_free)',
                'values, bounds and factors are finite floats, |exponent| <= 30 (NaN/inf/overflow: malformed stream)',
                'scipy ndtri supplies the 10%/90% quantiles behind Gaussian.boundaries()',
-               'parameter getters/setters are plain attribute accessors (the fixture\'s), as for every fitparam in taurex']
+               'parameter getters/setters are plain attribute accessors (the fixture\'s), as for every fitparam in taurex',
+               'sections: values enter the model as ParameterParser.transform typed them (ConfigObj parsing and transform are '
+               'exercised, not modelled; the yes/no meaning of fit/compute values is checked against the written text); '
+               'create_prior is the C08 model (parsePrior + createPrior, literals converted by Float.ofScientific); bounds/factor '
+               'that are not a pair of numbers and a mode that is not a string are outside the documented shapes (malformed stream)',
+               'derived-parameter names of model and observation are disjoint (hypothesis DisjD of the section theorems)']
 
 KINDS = ['Uniform', 'LogUniform', 'Gaussian', 'LogGaussian']
 OPCODE = dict(enable_fit=0, disable_fit=1, set_mode=2, set_boundary=3, set_factor_boundary=4, set_prior=5,
